@@ -351,7 +351,8 @@ func (lg *locGen) op() map[string]interface{} {
 		case 1:
 			o["fact"] = map[string]interface{}{"!readKey": pick(r, "rkey", "rkey", "").(string)}
 		case 2:
-			o["fact"] = map[string]interface{}{"!enabled": pick(r, "no", "yes", "true", "false").(string)}
+			// (anything but "", "yes" and "true" disables: unusual spellings included)
+			o["fact"] = map[string]interface{}{"!enabled": pick(r, "no", "yes", "true", "false", "no", "yes", "maybe", "0", "Yes", " no", "disabled").(string)}
 		case 3:
 			o["op"], o["ro"] = "setreadonly", r.Intn(2) == 0
 		case 4:
